@@ -32,12 +32,18 @@ def tables_referenced(f, skip_self_table=None) -> Set[str]:
 
 def emission_order(gen_f) -> List[str]:
     """Sequence of parser tables iterated by generate(), in source order."""
+    from .. import guards
+    from ..util import iterations
+
+    # in execution (= pre-order) sequence, not by line number: expanded helper bodies keep the helper's own line numbers;
+    # `p = self.parser` is looked through; loops and comprehensions count alike
+    cm = guards.copy_map(gen_f.node)
     order = []
-    for lp in [n for n in walk_local(gen_f.node) if isinstance(n, ast.For)]:
-        m = re.match(r"self\.parser\.(\w+)\.(values|items)\(\)", norm(lp.iter))
+    for it in iterations(gen_f.node):
+        m = re.match(r"self\.parser\.(\w+)\.(values|items)\(\)", norm(guards.subst(it.iter, cm)))
         if m:
-            order.append((lp.lineno, m.group(1)))
-    return [t for _, t in sorted(order)]
+            order.append(m.group(1))
+    return order
 
 
 def fstrings(f) -> List[str]:
@@ -193,17 +199,22 @@ def run(prog: Program, chk: Check):
     # namespaces must be created before anything is written into them
     created: Dict[str, int] = {}
     written: Dict[str, int] = {}
+    pos = {id(n_): i_ for i_, n_ in enumerate(walk_local(gj.node))}  # execution (pre-order) position, not line number
+    from .. import guards as _G
+    from ..util import iterations as _its
+
+    gjcm = _G.copy_map(gj.node)
     for c in calls_in(gj.node):
         if is_method_call(c, "write") and c.args and isinstance(c.args[0], ast.Constant) and isinstance(c.args[0].value, str):
             m = re.match(r"RTMA\.(\w+)\s*=\s*\{\}", c.args[0].value)
             if m:
-                created.setdefault(m.group(1), c.lineno)
+                created.setdefault(m.group(1), pos.get(id(c), 0))
     order = emission_order(gj)
     loops = {}
-    for lp in [n for n in walk_local(gj.node) if isinstance(n, ast.For)]:
-        m = re.match(r"self\.parser\.(\w+)\.values\(\)", norm(lp.iter))
+    for lp in _its(gj.node):
+        m = re.match(r"self\.parser\.(\w+)\.values\(\)", norm(_G.subst(lp.iter, gjcm)))
         if m:
-            loops.setdefault(m.group(1), lp.lineno)
+            loops.setdefault(m.group(1), pos.get(id(lp.node), 0))
     # which namespaces does the alias section write into (branches the front end can reach: native, alias, struct)?
     alias_ns = set()
     for st in [n for n in walk_local(ga.node) if isinstance(n, ast.If)]:
